@@ -120,6 +120,10 @@ func Open(filename string, opts ...Option) (*Whisper, error) {
 		w.file.Close()
 		return nil, fmt.Errorf("readHeader: %s: %s", filename, err)
 	}
+	if st.Size() < w.header.ExpectedFileSize() {
+		w.file.Close()
+		return nil, fmt.Errorf("readHeader: %s: file is shorter (%d bytes) than the %d bytes its header describes", filename, st.Size(), w.header.ExpectedFileSize())
+	}
 	return w, nil
 }
 
